@@ -627,7 +627,18 @@ def D25():
     return Parent.__spec_class__.attrs["items"].item_name != "item"
 
 
-ALL = [D17, D18, D19, D20, D21, D22, D23, D24, D25, F_C08_1, F_C04_3, F_C05_1, F_C05_2, D1, D2, D3, D4, D5, D6, D7, D8, D9, D10, D11, D12, D13, D14, D15, D16,
+def D26():
+    "C02: Attr(do_not_copy=True) is ignored (the attribute is duplicated by copy-on-write helpers)"
+    @spec_class
+    class S:
+        big: list = Attr(default_factory=list, do_not_copy=True)
+        n: int = 0
+
+    s = S(big=[1, 2])
+    return s.with_n(1).big is not s.big
+
+
+ALL = [D17, D18, D19, D20, D21, D22, D23, D24, D25, D26, F_C08_1, F_C04_3, F_C05_1, F_C05_2, D1, D2, D3, D4, D5, D6, D7, D8, D9, D10, D11, D12, D13, D14, D15, D16,
        F_C01_1, F_C02_1, F_C04_1, F_C13_1, F_C07_1, F_C07_2, F_C07_3, F_C04_2, F_C01_2]
 
 if __name__ == "__main__":
